@@ -227,10 +227,11 @@ CASE_PARTNER = {a: b for a, b in CASE_PAIRS} | {b: a for a, b in CASE_PAIRS}
 class Recorder:
     """wraps a pure converter; fails on call number `fail_at`; returns a wrong-length result when `badlen`"""
 
-    def __init__(self, pure, fail_at=None, badlen=None):
-        self.pure, self.fail_at, self.badlen, self.log = pure, fail_at, badlen, []
+    def __init__(self, pure, fail_at=None, badlen=None, ret=None):
+        self.pure, self.fail_at, self.badlen, self.ret, self.log = pure, fail_at, badlen, ret, []
 
     def __call__(self, *args):
+        import numpy as np
         import pandas as pd
         k = len(self.log)
         entry = {"vals": toks(pd.Series(args[0]).tolist()), "from": args[1], "to": args[2] if len(args) > 2 else None,
@@ -248,9 +249,23 @@ class Recorder:
             vals = vals[:-1] if len(vals) else [1.0]
         elif self.badlen == "scalar":
             vals = 7.0
+        # the container the converter hands back: a Series (own default labels 0..n-1), a list, a tuple
+        if self.ret == "series":
+            vals = pd.Series(np.asarray(vals))
+        elif self.ret == "list":
+            vals = np.asarray(vals).tolist()
+        elif self.ret == "tuple":
+            vals = tuple(np.asarray(vals).tolist())
         # what the values setter will see: pd.Series(values) (scalar -> one element; list -> coerced dtype)
         entry["ok"] = {"vals": toks(pd.Series(vals).tolist()), "unit": unit}
         return vals, unit
+
+
+class FalsyRecorder(Recorder):
+    """a converter object that is falsy (an empty container that is callable): still a converter"""
+
+    def __len__(self):
+        return 0
 
 
 # ---------------------------------------------------------------- tokens
@@ -329,7 +344,9 @@ def expand_values(col):
 def expand_index(index, n):
     if isinstance(index, dict):
         return {"rev": list(range(n - 1, -1, -1)), "odd_even": list(range(1, n, 2)) + list(range(0, n, 2)),
-                "strings": ["r%d" % i for i in range(n)]}[index["gen"]]
+                "strings": ["r%d" % i for i in range(n)],
+                "dates": __import__("pandas").to_datetime(["2020-01-01"] * n) +
+                __import__("pandas").to_timedelta([(i * 7) % (n or 1) for i in range(n)], unit="D")}[index["gen"]]
     return index
 
 
@@ -438,7 +455,8 @@ def run_impl(case):
                     t.convert_units(build_to(w, [c["name"] for c in before["cols"]])[0], Recorder(conv_obj))
             except Exception:
                 pass
-        rec = Recorder(conv_obj, fail_at=cv.get("fail_at"), badlen=cv.get("badlen"))
+        rec = (FalsyRecorder if cv.get("falsy") else Recorder)(conv_obj, fail_at=cv.get("fail_at"),
+                                                                badlen=cv.get("badlen"), ret=cv.get("ret"))
     to_obj, to_model = build_to(case["to"], [c["name"] for c in before["cols"]])
     old_default = pdtable.units.default_converter
     res = {"before": before, "to_model": to_model, "to_before": freeze_to(to_obj)}
@@ -477,7 +495,7 @@ def run_impl(case):
     # the SAME dispatcher object used again for further conversions of the same (unchanged) table: same outcome
     res["repeats"] = []
     for _ in range(case.get("repeat", 0) if rec is not None and dec is None and not cv.get("as_default") else 0):
-        rec_i = Recorder(conv_obj, fail_at=cv.get("fail_at"), badlen=cv.get("badlen"))
+        rec_i = Recorder(conv_obj, fail_at=cv.get("fail_at"), badlen=cv.get("badlen"), ret=cv.get("ret"))
         try:
             with warnings.catch_warnings():
                 warnings.simplefilter("ignore")
@@ -610,6 +628,11 @@ def oracle(case, obs, out):
             expected_cols.append((c, None))
             continue
         import pandas as pd
+        # the same container the converter hands back (an empty list has no numeric dtype, a Series keeps its own)
+        if cv.get("ret") == "series":
+            vals = pd.Series(np.asarray(vals))
+        elif cv.get("ret") in ("list", "tuple"):
+            vals = (list if cv["ret"] == "list" else tuple)(np.asarray(vals).tolist())
         expected_cols.append((c, {"vals": toks(pd.Series(vals).tolist()),
                                   "dtype": str(pd.Series(vals).to_numpy().dtype),
                                   "unit": reported if tgt == "__base__" else tgt}))
@@ -700,6 +723,9 @@ def compare(case, obs, ans, out):
             pass
         elif "exc" in m and obs["exc"] in col_errors:
             out.count("correspondence:another_column's_error_first")
+        elif "exc" in m and obs["exc"] in {e["exc"] for e in obs["log"] if "exc" in e}:
+            # the converter itself raised this during the call (on whichever call): it reached the caller
+            out.count("correspondence:converter_error_on_another_call")
         else:
             out.mismatch("convert_units: exception vs Lean model", case, {"exc": obs["exc"]},
                          dict(m, col_errors=sorted(col_errors)))
@@ -727,6 +753,7 @@ NAMES = ["t", "tab", "é_1"]
 # names that differ in letter case only / have inner blanks sit next to each other: a lookup that folds case or strips
 # would hit the wrong column
 COLNAMES = ["a", "b", "c", "d", "e", "col é", "A", "B", "a b", "A B", "Col É", "f", "g"]
+COLNAMES = COLNAMES + ["k%d" % i for i in range(8)]
 NUMS_INT = [0, 1, 2, 3, -4, 16, 1000, -1]
 NUMS_FLOAT = [0.0, 1.0, 0.5, -3.0, 1.25, 1e6, None, 2.0, -0.0, 1024.0]
 TS = ["2020-01-01T00:00:00", "1999-12-31T23:59:59", None]
@@ -734,7 +761,7 @@ TS = ["2020-01-01T00:00:00", "1999-12-31T23:59:59", None]
 
 def gen_table(rng, family):
     n = rng.choice([0, 1, 2, 3, 3, 4, 5])
-    ncol = rng.choice([0, 1, 2, 2, 3, 3, 4, 5, 6, 8, 11])
+    ncol = rng.choice([0, 1, 2, 2, 3, 3, 4, 5, 6, 8, 11, 14, 17])
     names = rng.sample(COLNAMES, ncol)
     cols = []
     for nm in names:
@@ -755,11 +782,12 @@ def gen_table(rng, family):
             c["unit"] = rng.choice(["gork", "nosuchunit", "Gork"])       # a source unit no converter knows
         c["name"] = nm
         cols.append(c)
-    ik = rng.choice(["default", "default", "permuted", "offset", "strings", "dup", "floats"])
-    index = {"default": None, "permuted": rng.sample(range(n), n), "offset": list(range(10, 10 + n)),
+    ik = rng.choice(["default", "default", "permuted", "offset", "strings", "dup", "floats", "dates"])
+    index = {"default": None, "dates": {"gen": "dates"}, "permuted": rng.sample(range(n), n), "offset": list(range(10, 10 + n)),
              "strings": [f"r{i}" for i in rng.sample(range(n), n)], "dup": [7] * n,
              "floats": [i + 0.5 for i in range(n)]}[ik]
-    return {"name": rng.choice(NAMES), "dests": rng.choice([["all"], ["x", "y"]]), "nrows": n, "index": index,
+    return {"name": rng.choice(NAMES), "dests": rng.choice([["all"], ["x", "y"], ["x", "y", "z"], ["All", "all", "x ", "q", "r"], []]), "nrows": n,
+            "index": index,
             "cols": cols, "index_kind": ik}
 
 
@@ -823,7 +851,12 @@ def gen_to(rng, table, family):
 def gen_conv(rng, family):
     r = rng.random()
     if r < 0.62:
-        return dict({"kind": "pure", "pure": family}, **({"decoy_default": True} if rng.random() < 0.25 else {}))
+        extra = {"decoy_default": True} if rng.random() < 0.25 else {}
+        if rng.random() < 0.3:
+            extra["ret"] = rng.choice(["series", "list", "tuple"])       # the result in another container
+        if rng.random() < 0.1:
+            extra["falsy"] = True                                        # a converter object with len() == 0
+        return dict({"kind": "pure", "pure": family}, **extra)
     if r < 0.80:
         return dict({"kind": "fail", "pure": family, "fail_at": rng.choice([0, 0, 1, 2, 3])},
                     **({"decoy_default": True} if rng.random() < 0.25 else {}))
@@ -981,12 +1014,12 @@ def eval_case(case, out, ops, pend, model_ok, record=True):
 
 def run(tier, seed, model_ok, translator, search=False):
     out = Outcome()
-    out.rule = ("tables of 0-5 columns x 0-5 rows (int64 / float64 with NaN / str / bool / datetime columns; default, "
-                "permuted, offset, string, duplicate and float row indexes) x dispatcher argument ('base', 'origin', "
+    out.rule = ("tables of 0-17 columns x 0-5 rows, 0-5 destinations (case / blank variants) (int64 / float64 with NaN / str / bool / datetime columns; default, "
+                "permuted, offset, string, duplicate, float and DatetimeIndex row labels) x dispatcher argument ('base', 'origin', "
                 "other str, list, tuple, wrong-length list, dict with superfluous names and None values, callable, "
                 "non-dispatcher objects, per-column __base__/__origin__) x converter (affine with known inverse, "
                 "pdtable.demo convert_this, pdtable pint_converter; each also failing on its k-th call, returning a "
-                "wrong length, installed as default converter, passed explicitly while a DIFFERENT converter is the "
+                "wrong length, returning a Series / list / tuple, being a falsy object, installed as default converter, passed explicitly while a DIFFERENT converter is the "
                 "module default, or absent); a converter computing in place on the buffer it is handed; long tables on a "
                 "size ladder (rows at and around 64 … 1024, 4096, 8192, 12288, 20001; every row compared by position); "
                 "ONE converter object per case serving warm-up "
@@ -997,7 +1030,7 @@ def run(tier, seed, model_ok, translator, search=False):
                 "special column was refused.")
     rng = make_rng(seed, "C06")
     ops, pend = [], []
-    n = 14000 if tier == "thorough" else 4000
+    n = 14000 if tier == "thorough" else 3300
     cases = fixed_cases(seed) + ladder_cases(make_rng(seed, "C06-ladder"), seed, tier) + \
         [gen_case(rng, seed, i, tier) for i in range(n)]
     for case in cases:
